@@ -40,6 +40,16 @@ def gen_cases(tier, seed):
         cases.append({"kind": "random", "crystal": {"name": name, "order": ["asis", "random"][rng.integers(2)], "order_seed": int(rng.integers(100))}, "smat": sm,
                       "pmat": ["P", "centring"][rng.integers(2)], "dist": ["quantum", "classical"][rng.integers(2)], "T": [0.0, 10.0, 300.0, 2000.0][rng.integers(4)],
                       "cutoff": [None, 0.5, 2.0][rng.integers(3)], "seed": int(rng.integers(10 ** 6)), "_cost": (crystals.natoms(name) * setup.det3(sm)) ** 2})
+    # centred cells whose unit cell lists the species interleaved (Na Cl Na Cl ...): the lattice images of one primitive atom are then not a
+    # contiguous block of the supercell, and the species differ in mass - per-atom quantities must go through the maps, not through block arithmetic
+    for i in range(4 if tier == "quick" else 24):
+        name = ["rocksalt", "zincblende", "fluorite", "rocksalt"][i % 4]
+        sm = [np.diag([1, 1, 1]).tolist(), np.diag([2, 1, 1]).tolist()][i % 2]
+        if crystals.natoms(name) * setup.det3(sm) > 40:
+            sm = np.diag([1, 1, 1]).tolist()
+        cases.append({"kind": "random", "crystal": {"name": name, "order": ["interleave", "random"][i // 2 % 2], "order_seed": int(rng.integers(100))}, "smat": sm,
+                      "pmat": "centring", "dist": ["quantum", "classical"][i % 2], "T": [300.0, 10.0, 2000.0][i % 3],
+                      "cutoff": None, "seed": int(rng.integers(10 ** 6)), "_cost": (crystals.natoms(name) * setup.det3(sm)) ** 2})
     for i in range(16 if tier == "quick" else 100):
         cases.append({"kind": "msd", "crystal": {"name": names[i % len(names)], "order": "asis"}, "mesh": [int(v) for v in rng.integers(1, 4, 3)],
                       "fmin": [None, 0.5][rng.integers(2)], "fmax": [None, 6.0][rng.integers(2)], "seed": int(rng.integers(10 ** 6)), "_cost": 200,
